@@ -252,6 +252,9 @@ def generate(rng, index, tier):
             step = {'op': 'rescan'}
             if rng.random() < 0.5:
                 step['delete'] = file_in_play()
+            elif rng.random() < 0.5:
+                step['overlap'] = True
+                force_gap[0] = rng.choice([0.0, 0.001, 0.05])
         elif r < 0.92:
             step = {'op': 'phrases', 'list': rng.sample(PHRASES, rng.choice([0, 1, 2]))}
         elif r < 0.97:
@@ -408,6 +411,17 @@ def corpus(tier):
                      {'op': 'add', 'dir': [gone], 'mode': 'friends', 'users': [], 'scan': True, 'gap': 9.0},
                      search('u1', 'server', 'song', gap=3.0), {'op': 'shares', 'user': 'u1'}]
             out.append(_plan(sib, steps, slots=1))
+    # 11. a nested directory with a stricter mode is added while the scan of its parent is still running on the executor;
+    #     requests follow before the next scan
+    for mode in ('friends', 'users'):
+        for gap in (0.001, 0.05):
+            steps = [{'op': 'rescan', 'overlap': True, 'gap': 1.2},
+                     {'op': 'add', 'dir': ['pub', 'inner'], 'mode': mode, 'users': ['u2'], 'scan': False, 'gap': gap},
+                     search('u1', 'server', 'deep', gap=3.0), search('u1', 'file', 'secret'), {'op': 'shares', 'user': 'u1'},
+                     {'op': 'dir', 'user': 'u1', 'dir': ['pub', 'inner'], 'form': 'exact'},
+                     q('u1', 'pub/inner/deep song.mp3', 'exact'), q('u1', 'pub/inner/secret demo.mp3', 'parent_alias'),
+                     {'op': 'rescan', 'gap': 3.0}, search('u1', 'server', 'deep', gap=1.2)]
+            out.append(_plan(three, steps, slots=1, exec={'delay_ms': [100, 400]}))
     # 8. requests racing a change (same instant, 50 ms)
     for gap in (0.0, 0.05):
         out.append(_plan(three, [search('u1', 'server', 'secret'), {'op': 'friend', 'user': 'u1', 'value': True, 'gap': gap},
@@ -767,7 +781,21 @@ def _run(world: World, plan):
         await call.task
         return call
 
-    async def do_scan(label):
+    pending_scans = []
+
+    async def join_scans():
+        while pending_scans:
+            c = pending_scans.pop()
+            await c.task
+
+    async def do_scan(label, overlap=False):
+        if overlap:
+            # the scan is left running on the (slow) executor while the next steps change the configuration; the
+            # reference index is only brought up to date by the next awaited scan
+            world.net.fired['change_during_scan'] += 1
+            pending_scans.append(world.call(alice, label, shares.scan))
+            return
+        await join_scans()
         call = world.call(alice, label, shares.scan)
         await call.task
         if call.outcome() != 'returned':
@@ -1020,9 +1048,9 @@ def _run(world: World, plan):
                 os.unlink(gone)
                 deleted = True
                 world.disk.fired['file_deleted'] += 1
-            await do_scan('rescan')
+            await do_scan('rescan', overlap=bool(step.get('overlap')))
             mark_change('rescan')
-            sig_steps.append(('rescan', deleted))
+            sig_steps.append(('rescan', deleted, bool(step.get('overlap'))))
         elif op == 'phrases':
             server.send_to('alice', M.ExcludedSearchPhrases.Response(list(step.get('list', []))))
             sig_steps.append(('phrases', tuple(sorted(E.case_class(p) for p in step.get('list', [])))))
@@ -1052,6 +1080,9 @@ def _run(world: World, plan):
             if gap > 0:
                 await asyncio.sleep(gap)
             await fire(step)
+        if pending_scans:
+            await do_scan('rescan-at-end')
+            mark_change('rescan')
         await asyncio.sleep(SETTLE + 1.0)
         world.probe('final_evaluation')
         evaluate('final')
